@@ -1,6 +1,7 @@
 /-
   Ports of the instantiated (non-top) definitions across write-then-read: preserved as sets of
-  (port, bit) when no instance pin dangles (`leaf_port_shrinks` shows the condition is needed).
+  (port, bit).  (With the original `parse_subcircuit_port` this needed "no instance pin dangles":
+  upper bus bits that are `unconn` on every instance were lost; the model follows the repaired code.)
 -/
 import Spydr.Eblif.DefsBB
 
@@ -8,11 +9,12 @@ namespace Spydr.Eblif.Any
 
 open Spydr.Eblif
 
-/-- every pin of every instance sits on a wire -/
-def NoDangling (n : BNet) : Prop :=
-  ∀ k ∈ n.insts.zipIdx, ∀ q ∈ k.1.pins, (n.wireOf (Pin.inst k.2 q.1 q.2)).isSome = true
+/-- every pin of every `.latch` instance sits on a wire (an unconnected latch field is written as
+    the word `unconn`, which does not widen an existing `generic-latch` port) -/
+def LatchConnected (n : BNet) : Prop :=
+  ∀ k ∈ n.insts.zipIdx, k.1.typ = "EBLIF.latch" → ∀ q ∈ k.1.pins, (n.wireOf (Pin.inst k.2 q.1 q.2)).isSome = true
 
-instance (n : BNet) : Decidable (NoDangling n) := by unfold NoDangling; infer_instance
+instance (n : BNet) : Decidable (LatchConnected n) := by unfold LatchConnected; infer_instance
 
 /-- the ports of the definitions that get a black-box block have at least one pin -/
 def BBWide (n : BNet) (t : String) : Prop := ∀ d ∈ bbDefs n t, ∀ p ∈ d.ports, 1 ≤ p.width
@@ -28,7 +30,7 @@ theorem bnet_findDef_of_mem {n : BNet} (hnd : (n.defs.map (·.name)).Nodup) {d :
   rw [this]
 
 theorem roundtrip_leaf_ports (o : Opts) (n : BNet) (t : String) (hw : WellNamed n) (hf : FragFull n t)
-    (hn : NetOKA n t) (hnm : NamesOK o n) (hbp : BBPlain n t) (hpm : n.PinMirror) (hdg : NoDangling n)
+    (hn : NetOKA n t) (hnm : NamesOK o n) (hbp : BBPlain n t) (hpm : n.PinMirror) (hdg : LatchConnected n)
     (hbw : BBWide n t) (n' : BNet) (h : readB (composeText o n) = Except.ok n') :
     ∀ k ∈ kidsFull n t, ∀ pn b,
       (pn, b) ∈ allPins (n'.findDef k.1.model) ↔ (pn, b) ∈ allPins (n.findDef k.1.model) := by
@@ -199,7 +201,7 @@ theorem roundtrip_leaf_ports (o : Opts) (n : BNet) (t : String) (hw : WellNamed 
   -- lower bound
   have lb : ∀ q ∈ k.1.pins, ∃ p, findIn (portsOf sf k.1.model) q.1 = some p ∧ q.2 < p.width := by
     intro q hq
-    obtain ⟨p, hp', hlt⟩ := lbk k hkk q hq (hdg k hkz q hq)
+    obtain ⟨p, hp', hlt⟩ := lbk k hkk q hq (fun hl => hdg k hkz hl q hq)
     obtain ⟨p1, hp1, l1⟩ := pm_elabStmts _ hbc _ _ p hp'
     obtain ⟨p2, hp2, l2⟩ := pm_elabModels _ hsf _ _ p1 hp1
     exact ⟨p2, hp2, by omega⟩
